@@ -359,7 +359,14 @@ class AsyncFIXConnection:
                     if decoded_msg is None:
                         break
 
-                    await self._process_message(decoded_msg, raw_msg)
+                    try:
+                        await self._process_message(decoded_msg, raw_msg)
+                    except OSError:
+                        raise
+                    except Exception:
+                        # failed message must not hold back the messages which were
+                        #   received together with it until the next socket read
+                        self.log.exception("socket_read_task: process_message")
             except asyncio.CancelledError:
                 return
             except OSError as why:
